@@ -116,6 +116,9 @@ func vMutexHeldNative(m interface {
 	TryLock() bool
 	Unlock()
 }) bool {
+	if vRaceMode {
+		return false // touchers take the locks at any time (vGuardedBy); not the subject of these replays
+	}
 	if m.TryLock() {
 		m.Unlock()
 		return false
